@@ -231,6 +231,13 @@ func Flush() {
 	if path == "" {
 		return
 	}
+	for _, a := range os.Args {
+		if strings.HasPrefix(a, "-test.fuzzworker") {
+			// native fuzzing runs the target in worker processes: one stats file per worker, merged by the driver
+			path += ".w" + strconv.Itoa(os.Getpid())
+			break
+		}
+	}
 	sort.Strings(st.Notes)
 	b, err := json.MarshalIndent(st, "", " ")
 	if err != nil {
